@@ -4,6 +4,7 @@ import KawinV.Gen.C20Tables
 /-! driver verbs for the save/load model (Float instance), run with the GENERATED tables -/
 namespace KawinV.Drv.C20
 open KawinV.Proto KawinV.SaveLoad KawinV.Gen.C20
+open KawinV.Forward (Getter Call)
 
 /-- value:  `N`  |  `A <ndim> d1 … <len> x1 …` -/
 def val : P (Val Float) := do
@@ -61,10 +62,44 @@ def jsonrt : P String := do
   let d' := flatten sh.length j
   pure s!"{" ".intercalate (toString sh'.length :: sh'.map toString)} {flist d'} {showNest sh.length j}"
 
+def showErr : KawinV.Forward.Err → String
+  | .tooMany => "toomany"
+  | .multiple p => s!"multiple {p}"
+  | .unexpected k => s!"unexpected {k}"
+
+def showKw (l : List (String × String)) : String :=
+  " ".intercalate (toString l.length :: l.map (fun e => s!"{e.1} {e.2}"))
+
+/-- fw.call  class(B|M)  getter  positional-values  keyword-values   (values are opaque tokens)
+    the forwarding row of that getter in the GENERATED table decides what happens:
+    → `S err <why>`                                  Python refuses the call to the getter
+    | `F <pos> <kw> B ok <received>` | `F <pos> <kw> B err <why>`   the call handed on, bound to the thermodynamics signature
+    a named parameter the caller left out travels as `D:<name>` -/
+def fwcall : P String := do
+  let cls ← tok
+  let gname ← tok
+  let pos ← lst tok
+  let kw ← lst (do let k ← tok; let v ← tok; pure (k, v))
+  let table := if cls == "B" then binaryForwarding else multiForwarding
+  match table.find? (fun r => r.1 == gname) with
+  | none => failure
+  | some row =>
+    let g := Getter.ofRow row
+    let c : Call String := { pos := pos, kw := kw }
+    let d := fun n => "D:" ++ n
+    match KawinV.Forward.forward g d c with
+    | .error e => pure s!"S err {showErr e}"
+    | .ok f =>
+      let head := s!"F {" ".intercalate (toString f.pos.length :: f.pos)} {showKw f.kw}"
+      match KawinV.Forward.bindT g.tsig f with
+      | .error e => pure s!"{head} B err {showErr e}"
+      | .ok r => pure s!"{head} B ok {showKw r}"
+
 def handle (verb : String) : Option (P String) :=
   match verb with
   | "sl.rt" => some rt
   | "json.rt" => some jsonrt
+  | "fw.call" => some fwcall
   | _ => none
 
 end KawinV.Drv.C20
